@@ -1,5 +1,5 @@
 (* C02 — IfTransformer (if/elif/else flattened into guarded assignments with _old copies):
-   the model PassIf.if_flatten (tied to program/transformer/if_transformer.py by
+   the model PassIf.if_flatten_old (tied to program/transformer/if_transformer.py by
    harness/pass_if.py on every run) preserves the distribution of every observation that does
    not read generated `_old...` variables, for ALL blocks (nested if-statements of any depth),
    ALL start states, with the auxiliaries starting arbitrary, and at ALL iterations. *)
@@ -12,7 +12,7 @@ Open Scope string_scope.
    on the non-generated variables *)
 Theorem C02_if_flatten_block_preserves :
   forall (law : string -> list Qc -> dist Qc) (k : nat) (b : block) (l : list gassign) (k' : nat),
-    if_flatten k b = Some (l, k') ->
+    if_flatten_old k b = Some (l, k') ->
     wf_block b = true ->
     forall s t : state, (forall x, is_gen x = false -> t x = s x) ->
     forall f : state -> Qc,
@@ -24,7 +24,7 @@ Print Assumptions C02_if_flatten_block_preserves.
 (* whole programs (init block and loop body, guard already literally true), every iteration n *)
 Theorem C02_if_flatten_preserves :
   forall (law : string -> list Qc -> dist Qc) (k : nat) (p : prog) (fp : flatprog) (k' : nat),
-    if_flatten_prog k p = Some (fp, k') ->
+    if_flatten_prog_old k p = Some (fp, k') ->
     wf_prog p = true ->
     forall (n : nat) (s0 t0 : state), (forall x, is_gen x = false -> t0 x = s0 x) ->
     forall f : state -> Qc,
@@ -37,7 +37,7 @@ Print Assumptions C02_if_flatten_preserves.
    Polar's, see the capture probe of harness/pass_if.py) output changes E(y) from 7 to 0 *)
 Theorem C02_if_flatten_without_wf_refuted :
   exists (k : nat) (b : block) (l : list gassign) (k' : nat) (s : state) (f : state -> Qc),
-    if_flatten k b = Some (l, k') /\
+    if_flatten_old k b = Some (l, k') /\
     (forall s' t' : state, (forall x, is_gen x = false -> t' x = s' x) -> f t' = f s') /\
     (forall x, is_gen x = false -> s x = s x) /\
     E (exec_gas no_law l s) f <> E (exec_block no_law b s) f.
@@ -54,7 +54,7 @@ Definition ga (x : var) (c : cond) (e : expr) : gassign :=
 (* the model's output is Polar's: the copy of a comes first, and the negated first condition is
    renamed in the SECOND branch although a is assigned only in the last one (aliasing quirk) *)
 Example C02_if_example_output :
-  if_flatten 0 ex_if =
+  if_flatten_old 0 ex_if =
   Some ([ga "_old0" CTrue (EVar "a");
          ga "y" c_a0 (EConst (mkq 1 1));
          ga "y" (CAnd (CNot c_old0) c_b0) (EConst (mkq 2 1));
@@ -75,7 +75,7 @@ Definition ex_nested : prog :=
                              BrNil)
                           (BCons (SAssign "a" (RDraw (DUnif 1 2))) BNil)) BNil |}.
 Example C02_if_nested_defined :
-  (match if_flatten_prog 7 ex_nested with
+  (match if_flatten_prog_old 7 ex_nested with
    | Some (fp, k) => (List.length (fp_body fp), k)
    | None => (0%nat, 0%nat)
    end, wf_prog ex_nested) = ((7%nat, 10%nat), true).
@@ -87,7 +87,7 @@ Definition ex_mutex : block :=
              (BrCons (CAtom (EVar "_c3") Ceq (EConst (mkq 1 1))) (BCons (SAssign "x" (RDet (EVar "x"))) BNil) BrNil))
              BNil) BNil.
 Example C02_if_mutex_output :
-  if_flatten 4 ex_mutex =
+  if_flatten_old 4 ex_mutex =
   Some ([ga "x" (CAtom (EVar "_c3") Ceq (EConst (mkq 0 1))) (EConst (mkq 1 1));
          ga "x" (CAtom (EVar "_c3") Ceq (EConst (mkq 1 1))) (EVar "x")], 4%nat).
 Proof. vm_compute. reflexivity. Qed.
